@@ -211,7 +211,7 @@ func (l *Layout) ambiguous(base string, refs []fileTruth) bool {
 
 // ---- generator -----------------------------------------------------------------------------
 
-var fsElems = []string{"a", "b", "c", "x", "pkg", "src", "mod", "go", "cmd", "internal"}
+var fsElems = []string{"a", "b", "c", "x", "pkg", "src", "mod", "go", "cmd", "internal", "café", "日本", "my dir"}
 var fsHosts = []string{"github.com/u/r", "github.com/u/q", "golang.org/x/net", "gopkg.in/y.v2", "example.com/m", "corp/lib"}
 var fsStd = []string{"fmt/print.go", "net/http/server.go", "runtime/proc.go", "runtime/panic.go", "os/file.go", "a/b.go", "internal/poll/fd.go"}
 
@@ -229,7 +229,7 @@ func genRemoteRoot(t *rapid.T, tag string) string {
 	n := rapid.IntRange(1, 4).Draw(t, "rootDepth")
 	el := []string{}
 	for i := 0; i < n; i++ {
-		el = append(el, rapid.SampledFrom([]string{"home", "u", "usr", "lib", "go", "r", "opt", tag}).Draw(t, "rootElem"))
+		el = append(el, rapid.SampledFrom([]string{"home", "u", "usr", "lib", "go", "r", "opt", tag, "rené", "Program Files"}).Draw(t, "rootElem"))
 	}
 	return "/" + strings.Join(el, "/") + "/" + tag
 }
